@@ -530,10 +530,16 @@ class Pipeline:
         result_from_cache = False
         if use_cache:
             assert cache is not None
-            cache_key = compute_cache_key(
-                func.output_name,
-                self._func_defaults(func) | flat_scope_kwargs | func._bound,
-                root_args,
+            cache_key = (
+                # A supplied intermediate value makes the root arguments insufficient as key:
+                # neither look up nor store a result for such a call.
+                None
+                if any(k in self.output_to_func for k in flat_scope_kwargs)
+                else compute_cache_key(
+                    func.output_name,
+                    self._func_defaults(func) | flat_scope_kwargs | func._bound,
+                    root_args,
+                )
             )
             return_now, result_from_cache = get_result_from_cache(
                 func,
